@@ -102,6 +102,9 @@ func runC19(c *Ctx) error {
 		{10 * time.Millisecond, 25 * time.Millisecond, 2, 1},
 		{40 * time.Millisecond, 400 * time.Second, 5, 4},
 		{time.Second, time.Second, 1, 1},
+		// the same steps as two of the above, with a ceiling that is reached early: each middleware value has its own MaxInterval
+		{100 * time.Millisecond, 180 * time.Millisecond, 3, 2},
+		{40 * time.Millisecond, 70 * time.Millisecond, 5, 4},
 	}
 	var cases []c19Case
 	for ci, ch := range chains {
@@ -297,6 +300,8 @@ func c19Run(r *tr.Run, cs c19Case) {
 			m := message.NewMessage(o.ID, nil)
 			if o.Corr != "" {
 				middleware.SetCorrelationID(o.Corr, m)
+			} else if o.ID == "o1" {
+				m.Metadata.Set(middleware.CorrelationIDMetadataKey, "") // the key is there, the id is not: an output that lacks one
 			}
 			outs = append(outs, m)
 		}
